@@ -1,6 +1,6 @@
 (* Properties/C03.v — validation accepts exactly the smooth, decomposable, well-labelled circuits. *)
 From Coq Require Import List Arith Bool ZArith Ring.
-From DV Require Import Model.Core Model.Heap Proofs.CoreFacts Proofs.HeapFacts Proofs.HeapTable Proofs.BfsFacts.
+From DV Require Import Model.Core Model.Heap Proofs.CoreFacts Proofs.HeapFacts Proofs.HeapTable Proofs.BfsFacts Model.Gate Proofs.GateFacts.
 Import ListNotations.
 
 (* accept <-> ids are unique and exactly {0..n-1}; every sum has as many weights as children, at
@@ -26,6 +26,19 @@ Proof. exact bfs_complete. Qed.
 
 Theorem C03_context_flag_off : forall h root a b c, check_spn false h root a b c = Accept.
 Proof. exact check_disabled. Qed.
+
+(* the flag that disables the gate (deeprob/context.py) is restored by EVERY well-bracketed history of context
+   blocks — `with` blocks and decorated calls, nested arbitrarily, each left normally or by an exception: the
+   state after the history is the state before it, and every query made outside all blocks sees the gate
+   enabled; hence after any number of completed (possibly failed) operations the next circuit is validated *)
+Theorem C03_gate_restored : forall l f0, balanced l -> fst (grun (ginit f0) l) = ginit f0.
+Proof. exact gate_restored. Qed.
+Theorem C03_gate_enabled_outside_blocks : forall l, balanced l ->
+    forall f, In (0, f) (snd (grun (ginit default_flags) l)) -> f_spn f = true /\ f_dtype f = true.
+Proof. exact gate_enabled_outside_blocks. Qed.
+Theorem C03_gate_histories : forall ls, Forall balanced ls ->
+    fst (grun (ginit default_flags) (concat ls)) = ginit default_flags.
+Proof. exact gate_histories. Qed.
 
 Section C03_sound.
   Variable T : Type.
@@ -60,3 +73,6 @@ Print Assumptions C03_bfs_complete.
 Print Assumptions C03_context_flag_off.
 Print Assumptions C03_sound_normalised.
 Print Assumptions C03_pinned_refuted.
+Print Assumptions C03_gate_restored.
+Print Assumptions C03_gate_enabled_outside_blocks.
+Print Assumptions C03_gate_histories.
